@@ -1,18 +1,17 @@
 """C37 - flow files are crash-consistent.
 
-Decided:
-  R37.1 writer: ``FilteredFlowWriter.add`` flushes the file after the record on every writing path (a stream file
-        is complete up to the last finished flow after each save hook); ``tnetstring.dump`` serialises the whole
-        value first and hands it to the file in ONE ``write`` call (a serialisation error in the middle of a flow
-        cannot leave a torn record in front of later records).
-  R37.2 reader: ``tnetstring.load`` reads the length prefix, reads exactly ``int(prefix)`` bytes, and only THEN reads
-        the trailing type tag in a way that fails on an empty read (``read(1)[0]`` -> IndexError, ``ord(read(1))`` ->
-        TypeError) before handing (tag, body) to ``parse`` - so a short body can never be parsed as a record;
-        ``FlowReader.stream`` converts every exception such a truncation raises in ``load`` into FlowReadException
-        (or a clean end), never lets it escape raw.
-        The stream writer is the class ``Save`` really instantiates for ``self.stream``; its ``add`` is resolved along the
-        MRO and ``super().add(...)`` / ``self.<helper>(...)`` calls are inlined, so delegating the write to a base class or a
-        helper is analysed (and a delegate that does not flush is a violation), not refused.
+Decided (R37.1 and R37.2 by INTERPRETING the repository functions with mitmlint/pyint.py against recording stubs - nothing is
+imported or run; renamed locals, temporaries, inverted guards, ``while True`` + ``break``, extracted helpers, hoisted constants,
+base classes with ``super()`` and added logging / assertions are therefore transparent):
+  R37.1 writer: in a stub world the ``Save`` addon is switched on and driven through completion hooks, a filter change and the
+        stop; after EVERY hook the stream file (written by the writer class Save really instantiates, through ``tnetstring.dump``)
+        holds only whole records and no byte is left unflushed ("a stream file is complete up to the last finished flow at any
+        moment").  ``tnetstring.dump`` of a value leaves exactly one whole record; of a value that cannot be serialised it raises
+        and leaves the file untouched (no torn record in front of later flows).
+  R37.2 reader: ``tnetstring.load`` on EVERY strict prefix of sample records (scalars, nested containers whose inner elements end
+        in valid type tags) raises - a short body is never parsed as a record - and returns the value for the whole record without
+        reading past it; ``FlowReader.stream`` on every truncation offset of a file of three flows yields exactly the flows that
+        are complete before the offset, in order, and then ends or raises FlowReadException - no other exception escapes.
   R37.3 loader ("loading the truncated file yields exactly the flows that were completely written before that point ...
         and then ... reports a flow-read error"): the file loaders (``ReadFile.load_flows``, ``View.load_file``) consume the
         generator ``FlowReader.stream()`` LAZILY - the delivery of a flow (``master.load_flow`` / ``View.add``) is in the body
@@ -21,10 +20,12 @@ Decided:
         tail is raised by the generator AFTER the last complete flow; an eager collector (list/set/dict comprehension,
         ``list()``/``tuple()``/``sorted()``/``.extend()``/``*``-unpacking, or appending in the reading loop and delivering in
         a second loop / in batches) lets that error abort the hand-over of every complete flow read before it.
-NOT decided: OS-level durability (power loss), value-level behaviour of parse on complete records, the HAR reader.
-Dropped from DESIGN: R37.3 (save_flow/done ordering) is fully covered by R39.2 and is not a crash-consistency
-condition; "the empty-file case maps to a clean end" is not armed because the property allows either a clean end or
-a flow-read error after the last complete flow (the message agreement matters for C36, not here).
+NOT decided: OS-level durability (power loss), value-level behaviour of parse on complete records beyond the samples, the HAR
+reader, ``Flow.from_state`` / ``compat.migrate_flow`` (stubbed: C36).  "The empty-file case maps to a clean end" is not armed
+because the property allows either a clean end or a flow-read error after the last complete flow.
+Not armed any more: "dump hands the record to the file in ONE write call" - several writes of a fully serialised record put the
+same bytes into the same buffer, so that was a rule about shape; what matters (nothing reaches the file when serialising fails)
+is decided directly.
 """
 
 from __future__ import annotations
@@ -33,98 +34,42 @@ import ast
 
 from ..core import AnalysisError
 from ..core import norm
-from ..model import attr_chain
-from ..model import enclosing_func
 from ..model import last_attr
 from ..selftest import Mutant
-from ._helpers_E import params
+from ..pyint import Func
 from ._helpers_E import expect
-from ._helpers_E import paths
-from ._helpers_E import raises_at
-from ._helpers_E import show
+from ._helpers_flowio import FileStub
+from ._helpers_flowio import SaveWorld
+from ._helpers_flowio import drain
+from ._helpers_flowio import flat_stack
+from ._helpers_flowio import flowio_interp
+from ._helpers_flowio import make_flow
+from ._helpers_flowio import new_object
+from ._helpers_flowio import ref_dumps
+from ._helpers_flowio import ref_pop
+from ._helpers_flowio import ref_records
+from ._helpers_flowio import run
 
 PROP = "C37"
 REG = {
     "strength": "partial",
-    "technique": "path enumeration (must-follow / order of reads) over the stream writer's add (MRO-resolved, delegates inlined), tnetstring.dump/load and "
-    "FlowReader.stream with implicit exception edges; def-use of the stream() generator in the file loaders",
-    "claim": "the stream writer flushes after every record and hands each record to the file in one write; the reader reads exactly the "
-    "prefixed length and then a trailing type tag that fails on EOF, and every exception a truncation raises in load is converted to "
-    "FlowReadException or a clean end; the file loaders hand every flow over inside the loop that iterates the stream() generator lazily, "
+    "technique": "interpretation (pyint) of Save + the stream writer + tnetstring.dump in a stub world with a recording file, and of tnetstring.load / "
+    "FlowReader.stream over every truncation offset of sample files; def-use of the stream() generator in the file loaders",
+    "claim": "after every save hook the stream file holds whole records only and nothing unflushed; dump never leaves a torn record when serialising "
+    "fails; load raises on every strict prefix of the sample records and FlowReader.stream yields exactly the complete flows of every truncated sample "
+    "file and then ends or raises FlowReadException; the file loaders hand every flow over inside the loop that iterates the stream() generator lazily, "
     "so the error for a torn tail cannot discard complete flows.",
     "note": "Crash = the process stops; file objects are Python buffered binary files (read(n) returns fewer bytes only at EOF). "
-    "Loops unrolled once.",
+    "Bounded: sample records / three-flow file, every truncation offset of them. Flow.from_state and compat.migrate_flow are stubbed.",
 }
 
 IO = "mitmproxy/io/io.py"
 TN = "mitmproxy/io/tnetstring.py"
 
 
-def _strict_tag(ev, fh):
-    """Is the event a type-tag read that raises on an empty read?"""
-    rd = f"{fh}.read(1)"
-    if ev[0] == "sub" and ev[1] == rd and ev[2] == "0":
-        return "IndexError"
-    if ev[0] == "call" and ev[1] == "ord" and ev[2] == (rd,):
-        return "TypeError"
-    return None
-
 SAVE = "mitmproxy/addons/save.py"
 READFILE = "mitmproxy/addons/readfile.py"
 VIEW = "mitmproxy/addons/view.py"
-
-
-def _stream_writers(ctx):
-    """(rel, qual) of every class ``Save`` instantiates for ``self.stream`` - the writer of the stream file."""
-    save = ctx.model.cls(SAVE, "Save")
-    mod = ctx.model.module(SAVE)
-    out = []
-    for n in ast.walk(save):
-        if isinstance(n, (ast.Assign, ast.AnnAssign)):
-            tg = n.targets if isinstance(n, ast.Assign) else [n.target]
-            if not any(attr_chain(t) == "self.stream" for t in tg) or n.value is None:
-                continue
-            if isinstance(n.value, ast.Constant) and n.value.value is None:
-                continue
-            ctx.require(isinstance(n.value, ast.Call), f"Save: self.stream = {norm(n.value)} is not a constructor call (not modelled)")
-            r = ctx.model.resolve_name(mod, n.value.func)
-            ctx.require(r is not None and isinstance(r[1], ast.ClassDef), f"Save: the stream writer {norm(n.value.func)} does not resolve to a class of the repository")
-            k = (r[0].rel, getattr(r[1], "_qual", r[1].name))
-            if k not in out:
-                out.append(k)
-    ctx.require(out, "Save never assigns a writer to self.stream (anchor moved)")
-    return out
-
-
-def _delegate_resolver(ctx, wrel, wqual):
-    """Inline ``super().m(...)`` (next definition after the calling method's class in the writer's MRO) and
-    ``self.m(...)`` (first definition along the writer's MRO)."""
-    mro = ctx.model.mro(wrel, wqual)
-
-    def find(classes, name):
-        for m, c in classes:
-            for st in c.body:
-                if isinstance(st, (ast.FunctionDef, ast.AsyncFunctionDef)) and st.name == name:
-                    return st
-        return None
-
-    def resolver(call):
-        f = call.func
-        if not isinstance(f, ast.Attribute):
-            return None
-        v = f.value
-        if isinstance(v, ast.Name) and v.id == "self":
-            return find(mro, f.attr)
-        if isinstance(v, ast.Call) and isinstance(v.func, ast.Name) and v.func.id == "super" and not v.args and not v.keywords:
-            fn = enclosing_func(call)
-            owner = getattr(fn, "_parent", None)
-            idx = [i for i, (m, c) in enumerate(mro) if c is owner]
-            if not idx:
-                raise AnalysisError(f"super() used outside the stream writer's MRO at {norm(call)}")
-            return find(mro[idx[0] + 1:], f.attr)  # None: the base is outside the repository (object) - nothing to inline
-        return None
-
-    return resolver
 
 
 # ---- R37.3: lazy consumption of FlowReader.stream()
@@ -267,173 +212,176 @@ def _lazy_loader(ctx, rel, qual, sink_name, sink_desc):
 
 
 
+# ---- R37.1 / R37.2: interpretation
+
+_SAMPLES = [
+    ("bytes", b"hello"),
+    ("text", "5:ab,"),
+    ("int", 1234),
+    ("null", None),
+    ("list", [b"x,", 7, True]),
+    ("dict", {"id": "a1", "k": [1, None, b"q;", 2.5], "n": {"m": b"3:abc,"}}),
+]
+
+
+def _writer_rule(ctx):
+    """R37.1: the stream file after every save hook."""
+    w = SaveWorld(ctx.model)
+    save_cls = ctx.model.cls(SAVE, "Save")
+    flows = [make_flow("f1", "HTTPFlow", "x"), make_flow("f2", "TCPFlow", "y"), make_flow("f3", "DNSFlow", "x"), make_flow("f4", "UDPFlow", "xy"), make_flow("f5", "HTTPFlow", "x")]
+    script = [
+        ("configure", dict(save_stream_file="/dump")),
+        ("request", flows[0]), ("tcp_start", flows[1]), ("udp_start", flows[3]), ("request", flows[4]),
+        ("response", flows[0]), ("tcp_end", flows[1]),
+        ("configure", dict(save_stream_filter="x")),
+        ("dns_response", flows[2]), ("tcp_error", flows[1]), ("error", flows[0]),
+        ("configure", dict(save_stream_file=None)),
+    ]
+    writer = None
+    bad = False
+    written = 0
+    for ev in script:
+        name = ev[0]
+        if name != "configure" and not w.has(name):
+            continue  # a missing hook is C39's finding
+        st = w.configure(**ev[1]) if name == "configure" else w.hook(name, ev[1])
+        ctx.require(st == "ok", f"Save.{w.trace[-1]} in the stub world (C39 decides the hooks; C37 needs them to run)")
+        s = w.stream_object()
+        if s is not None and getattr(s, "_impl", None):
+            writer = s._impl
+        ctx.cells += 1
+        for path, mode, stub, _ in w.stubs:
+            recs, tail = ref_records(bytes(stub.data))
+            written = max(written, len(recs))
+            where = (writer[0], writer[1] + ".add", ctx.model.cls(*writer)) if writer else (SAVE, "Save", save_cls)
+            if tail and not bad:
+                bad = True
+                ctx.fail("R37.1", where, "stream file holds a partial record after a save hook",
+                         f"after {w.trace[-1]} the stream file ends in {len(tail)} bytes that are no whole record   [history: {' ; '.join(w.trace)}]")
+            if stub.durable[0] != len(stub.data) and not bad:
+                bad = True
+                ctx.fail("R37.1", where, "stream file not flushed after a save hook",
+                         f"after {w.trace[-1]} {len(stub.data) - stub.durable[0]} bytes of the finished flow were handed to the file but not flushed: the stream file "
+                         f"lacks the finished flow until some later write   [history: {' ; '.join(w.trace)}]")
+    ctx.require(bad or (writer is not None and written >= 3), f"the stub world saw no stream writer / only {written} records (Save.stream moved? shape not modelled)")
+    if not bad:
+        ctx.functions.add(f"{writer[0]}::{writer[1]}.add")
+        ctx.ok("R37.1", f"{writer[1]} (the writer Save streams to): after each of {len(script)} hooks the file holds whole records only, nothing unflushed ({written} records)")
+
+
+def _dump_rule(ctx):
+    dump = ctx.func(TN, "dump")
+    it = flowio_interp(ctx.model)
+    f = Func(ctx.model.module(TN), dump)
+    bad = False
+    for name, v in _SAMPLES:
+        fo = FileStub(b"")
+        r = run(it, f, v, fo)
+        ctx.cells += 1
+        got = ref_pop(bytes(fo.data))
+        if not bad and (r[0] != "ok" or got is None or got[1] != b"" or got[0] != v):
+            bad = True
+            ctx.fail("R37.1", (TN, "dump", dump), "dump does not leave one whole record",
+                     f"dump({v!r}) {'raises ' + r[1] if r[0] != 'ok' else 'left ' + repr(bytes(fo.data))}: not exactly one whole record of the value")
+    for name, v in [("set leaf", {"id": "a", "bad": {1, 2}}), ("object in list", [1, b"x", object()]), ("nested", {"a": {"b": [b"ok", {3}]}})]:
+        fo = FileStub(b"")
+        r = run(it, f, v, fo)
+        ctx.cells += 1
+        if not bad and (r[0] != "raise" or fo.data):
+            bad = True
+            ctx.fail("R37.1", (TN, "dump", dump), "dump of an unserialisable value touches the file",
+                     f"dump of a value with an unserialisable part ({name}) {'returned' if r[0] == 'ok' else 'raised ' + r[1]} and left {bytes(fo.data)!r} in the file: "
+                     "a failure while serialising leaves a torn record in front of later flows")
+    if not bad:
+        ctx.ok("R37.1", f"tnetstring.dump: one whole record per value ({len(_SAMPLES)} samples); nothing reaches the file when serialising fails")
+
+
+def _load_rule(ctx):
+    load = ctx.func(TN, "load")
+    it = flowio_interp(ctx.model)
+    f = Func(ctx.model.module(TN), load)
+    bad = set()
+    excs = set()
+    n = 0
+    for name, v in _SAMPLES:
+        rec = ref_dumps(v)
+        for k in range(len(rec) + 1):
+            fo = FileStub(rec[:k] if k < len(rec) else rec + b"7:trailer,")
+            r = run(it, f, fo)
+            n += 1
+            ctx.cells += 1
+            if k < len(rec):
+                if r[0] == "ok" and "t" not in bad:
+                    bad.add("t")
+                    ctx.fail("R37.2", (TN, "load", load), "load returns a value for a truncated record",
+                             f"the record {rec!r} cut after {k} bytes ({rec[:k]!r}) is parsed as {r[1]!r}: a partially written record is returned")
+                elif r[0] == "raise":
+                    excs.add(r[1])
+            else:
+                if (r != ("ok", v) or fo.pos != len(rec)) and "c" not in bad:
+                    bad.add("c")
+                    what = f"raises {r[1]}" if r[0] == "raise" else f"gives {r[1]!r}, file position {fo.pos}"
+                    ctx.fail("R37.2", (TN, "load", load), "load does not read a whole record exactly",
+                             f"the complete record {rec!r} (followed by another record) {what}; expected {v!r} and position {len(rec)}: complete flows are lost / the next record is damaged")
+    if not bad:
+        ctx.ok("R37.2", f"tnetstring.load: raises {sorted(excs)} on each of {n - len(_SAMPLES)} strict prefixes of {len(_SAMPLES)} sample records; whole records load and leave the file at their end")
+    return excs
+
+
+def _stream_rule(ctx):
+    stream = ctx.func(IO, "FlowReader.stream")
+    it = flowio_interp(ctx.model)
+    ids = [("f1", "http"), ("f2", "tcp"), ("f3", "dns")]
+    recs = [ref_dumps({"id": i, "type": t, "version": 21}) for i, t in ids]
+    data = b"".join(recs)
+    ends, acc = [], 0
+    for r in recs:
+        acc += len(r)
+        ends.append(acc)
+    outcomes = {}
+    bad = set()
+    for k in range(len(data) + 1):
+        fo = FileStub(data[:k])
+        rd = new_object(it, ctx.model, IO, "FlowReader", fo)
+        vals, end = drain(it, it.method(rd, "stream"))
+        ctx.cells += 1
+        want = [("FLOW", i) for (i, _), e in zip(ids, ends) if e <= k]
+        if vals != want and "v" not in bad:
+            bad.add("v")
+            ctx.fail("R37.2", (IO, "FlowReader.stream", stream), "stream does not yield exactly the complete flows of a truncated file",
+                     f"a file of {len(ids)} flows cut after {k} bytes yields {[v[1] if isinstance(v, tuple) else v for v in vals]}, expected {[w[1] for w in want]} (record ends at {ends})")
+        if end not in ("end", "raise:FlowReadException") and "e" not in bad:
+            bad.add("e")
+            ctx.fail("R37.2", (IO, "FlowReader.stream", stream), f"stream lets {end.split(':')[1]} escape on a truncated file",
+                     f"a file of {len(ids)} flows cut after {k} bytes makes stream() end with {end} instead of a clean end or FlowReadException")
+        outcomes[end] = outcomes.get(end, 0) + 1
+    if not bad:
+        ctx.ok("R37.2", f"FlowReader.stream: {len(data) + 1} truncation offsets of a {len(ids)}-flow file -> exactly the complete flows, then {sorted(outcomes)}")
+
+
 def check(ctx):
-    ctx.rule("R37.1", "stream writer: flush follows the record on every writing path; dump = one write of the fully serialised record")
-    ctx.rule("R37.2", "reader: exact-length body read, then a trailing tag read that fails on EOF, then parse(tag, body); truncation exceptions become FlowReadException")
+    flat_stack(_check, ctx)
+
+
+def _check(ctx):
+    ctx.rule("R37.1", "stream writer: after every save hook the stream file holds whole records only and nothing unflushed; dump leaves no torn record when serialising fails")
+    ctx.rule("R37.2", "reader: load raises on every strict prefix of a record and reads whole records exactly; stream() yields exactly the complete flows of a truncated file, then ends or raises FlowReadException")
     ctx.rule("R37.3", "loaders: FlowReader.stream() is consumed lazily - each flow is delivered inside the loop iterating the generator, so the error of a torn tail cannot discard complete flows")
     ctx.assume("crash model: the writing process stops at an arbitrary byte; regular buffered binary files")
+    ctx.trust("wire-format reference, file / flow / filter stubs of _helpers_flowio; Flow.from_state and compat.migrate_flow stubbed (C36)")
+    ctx.bounds.append(f"{len(_SAMPLES)} sample records and one three-flow file, every truncation offset; one stream-saving history")
 
-    # ---- R37.1 flush after the record: the writer class Save really streams to, add resolved along the MRO
-    for wrel, wqual in _stream_writers(ctx):
-        hit = ctx.model.method(wrel, wqual, "add")
-        ctx.require(hit is not None, f"{wrel}::{wqual} has no add() along its MRO (writer shape not recognised)")
-        amod, add = hit
-        aqual = getattr(add, "_qual", f"{wqual}.add")
-        ctx.functions.add(f"{amod.rel}::{aqual}")
-        trs, eng = paths(add, resolver=_delegate_resolver(ctx, wrel, wqual),
-                         keep=lambda e: e[0] == "call" and (e[1].endswith("dump") or e[1].endswith(".write") or e[1].endswith(".flush") or e[1].endswith(".close")))
-        ctx.paths += len(trs)
-        writing = 0
-        bad = False
-        for t, how in trs:
-            if how != "return":
-                continue
-            w = [i for i, e in enumerate(t) if e[0] == "call" and ((e[1].endswith("dump") and any(a.split("=", 1)[-1] == "self.fo" for a in e[2])) or e[1] == "self.fo.write")]
-            if not w:
-                continue
-            writing += 1
-            fl = [i for i, e in enumerate(t) if e[0] == "call" and e[1] in ("self.fo.flush", "self.fo.close")]
-            if not fl or fl[-1] < w[-1]:
-                bad = True
-                ctx.fail("R37.1", (amod.rel, aqual, add), f"add: path [{show(t)}]",
-                         "a record is handed to the file without a following flush: after the save hook the stream file may lack the finished flow")
-        ctx.require(bad or writing >= 1, f"{aqual}: no path writes a record to self.fo (writer shape not recognised)")
-        if not bad:
-            via = f" (delegates inlined: {sorted(eng.inlined)})" if eng.inlined else ""
-            ctx.ok("R37.1", f"{aqual}: flush follows the record on {writing} writing path(s){via}")
-
-    # ---- R37.1 one write of the complete record
-    dump = ctx.func(TN, "dump")
-    ps = params(dump, drop_self=False)
-    ctx.require(len(ps) == 2, "tnetstring.dump(value, file_handle) signature changed")
-    val, fh = ps
-    dumps = ctx.func(TN, "dumps")
-    ctx.require(len(params(dumps, drop_self=False)) == 1, "tnetstring.dumps(value) signature changed (it must not see the file)")
-    writes, foreign = [], []
-    for n in ast.walk(dump):
-        if isinstance(n, ast.Name) and n.id == fh and isinstance(n.ctx, ast.Load):
-            par = n._parent
-            call = getattr(par, "_parent", None)
-            if isinstance(par, ast.Attribute) and isinstance(call, ast.Call) and call.func is par:
-                if par.attr == "write":
-                    writes.append(call)
-                elif par.attr not in ("flush",):
-                    foreign.append(call)
-            else:
-                foreign.append(par)
-    ctx.require(not foreign, f"tnetstring.dump uses the file handle other than by .write(): {[ast.unparse(x) for x in foreign]} - not modelled")
-
-    def full_record(arg):
-        if isinstance(arg, ast.Name):
-            src = [s.value for s in ast.walk(dump) if isinstance(s, ast.Assign) and any(isinstance(t, ast.Name) and t.id == arg.id for t in s.targets)]
-            return len(src) == 1 and full_record(src[0])
-        return isinstance(arg, ast.Call) and last_attr(arg.func) == "dumps" and len(arg.args) == 1 and isinstance(arg.args[0], ast.Name) and arg.args[0].id == val
-
-    def in_loop(n):
-        while n is not None and n is not dump:
-            if isinstance(n, (ast.For, ast.While, ast.comprehension, ast.ListComp, ast.GeneratorExp)):
-                return True
-            n = getattr(n, "_parent", None)
-        return False
-
-    good = len(writes) == 1 and not in_loop(writes[0]) and len(writes[0].args) == 1 and full_record(writes[0].args[0])
-    ctx.check(good, "R37.1", (TN, "dump", dump), f"dump: {len(writes)} write call(s): " + " ; ".join(ast.unparse(w) for w in writes),
-              "a record is not written as one write of the fully serialised value: a failure while serialising leaves a torn record in front of later flows",
-              desc="tnetstring.dump: single write(dumps(value))")
-
-    # ---- R37.2 load: prefix, exact body, strict trailing tag, parse(tag, body)
-    load = ctx.func(TN, "load")
-    lp = params(load, drop_self=False)
-    ctx.require(len(lp) == 1, "tnetstring.load(file_handle) signature changed")
-    lfh = lp[0]
-    rd = f"{lfh}.read"
-    trs, eng = paths(load, subscripts=True, keep=lambda e: (e[0] == "call" and e[1] in (rd, "ord", "len", "parse")) or e[0] in ("sub", "assign", "return"))
-    ctx.paths += len(trs)
-    bad = False
-    returning = 0
-    tag_excs = set()
-    for t, how in trs:
-        if how != "return":
-            continue
-        returning += 1
-        body = [i for i, e in enumerate(t) if e[0] == "call" and e[1] == rd and e[2] != ("1",)]
-        probs = []
-        if len(body) != 1:
-            probs.append(f"{len(body)} body reads on a returning path (expected exactly one read of int(<prefix>) bytes)")
-        else:
-            b = body[0]
-            arg = t[b][2]
-            pref = None
-            if len(arg) == 1 and arg[0].startswith("int(") and arg[0].endswith(")") and arg[0][4:-1].isidentifier():
-                pref = arg[0][4:-1]
-            if pref is None or not any(e[0] == "assign" and e[1] == pref for e in t[:b]):
-                probs.append(f"the body read {rd}({', '.join(arg)}) does not read exactly the prefixed length")
-            strict = [(i, _strict_tag(e, lfh)) for i, e in enumerate(t) if _strict_tag(e, lfh)]
-            after = [(i, x) for i, x in strict if i > b]
-            later_reads = [i for i, e in enumerate(t) if e[0] == "call" and e[1] == rd and i > b]
-            if not after:
-                probs.append("after the body no type tag is read in a way that fails on EOF (read(1)[0] / ord(read(1))): a truncated body would be parsed as a record")
-            else:
-                tag_excs.add(after[0][1])
-                if len(later_reads) != 1:
-                    probs.append(f"{len(later_reads)} reads after the body (expected only the type tag)")
-                # parse(tag, body): the operands are the values read above
-                ret = [e for e in t if e[0] == "return"]
-                rv = ast.parse(ret[-1][1], mode="eval").body if ret else None
-                if not (isinstance(rv, ast.Call) and last_attr(rv.func) == "parse" and len(rv.args) == 2 and not rv.keywords):
-                    probs.append("load does not return parse(tag, body)")
-                else:
-                    def origin(a):
-                        if isinstance(a, ast.Name):
-                            src = [e[2] for e in t if e[0] == "assign" and e[1] == a.id]
-                            return src[-1] if src else ""
-                        return ast.unparse(a)
-                    o_tag, o_body = origin(rv.args[0]), origin(rv.args[1])
-                    body_txt = f"{rd}({', '.join(arg)})"
-                    tag_ok = o_tag in (f"{rd}(1)[0]", f"ord({rd}(1))")
-                    body_ok = o_body in (body_txt, f"memoryview({body_txt})", f"bytes({body_txt})")
-                    if not tag_ok:
-                        probs.append(f"parse's type tag is '{o_tag}', not the strict trailing read")
-                    if not body_ok:
-                        probs.append(f"parse's data is '{o_body}', not the exact-length body read")
-        for p in probs:
-            bad = True
-            ctx.fail("R37.2", (TN, "load", load), f"load: path [{show([e for e in t if e[0] in ('call', 'sub')], 8)}]", p)
-    ctx.require(bad or returning >= 1, "tnetstring.load has no returning path")
-    if not bad:
-        ctx.ok("R37.2", f"tnetstring.load: {returning} returning paths: int(prefix) body read, then strict tag read ({sorted(tag_excs)}), then parse(tag, body)")
-
-    # ---- R37.2 FlowReader.stream maps truncation exceptions
-    trunc = {"ValueError"} | (tag_excs or {"IndexError"})
-    explicit = {last_attr(n.exc) for n in ast.walk(load) if isinstance(n, ast.Raise) and n.exc is not None}
-    ctx.require(explicit <= {"ValueError"}, f"tnetstring.load raises {sorted(explicit)}: extend the truncation exception set of R37.2")
-    stream = ctx.func(IO, "FlowReader.stream")
-    load_calls = [c for c in ast.walk(stream) if isinstance(c, ast.Call) and ast.unparse(c.func) in ("tnetstring.load", "load")]
-    ctx.require(len(load_calls) == 1, f"FlowReader.stream calls tnetstring.load {len(load_calls)}x (expected once)")
-
-    for exc in sorted(trunc):
-        trs, eng = paths(stream, keep=lambda e: e[0] in ("raise",), record_conds=False,
-                         may_raise=raises_at(load_calls[0], [exc]))
-        ctx.paths += len(trs)
-        outcomes = set()
-        for t, how in trs:
-            if not any(e[0] == "except" and e[1] == exc for e in t) and how != f"raise:{exc}":
-                continue
-            outcomes.add(how)
-        escaped = sorted(o for o in outcomes if o not in ("return", "raise:FlowReadException"))
-        if not outcomes:
-            ctx.fail("R37.2", (IO, "FlowReader.stream", stream), f"stream: {exc} from tnetstring.load", f"no handler encloses tnetstring.load: a truncated file raises a raw {exc}")
-        elif escaped:
-            ctx.fail("R37.2", (IO, "FlowReader.stream", stream), f"stream: {exc} from tnetstring.load", f"a truncated record raises {exc} in load, which leaves stream() as {escaped} instead of FlowReadException")
-        else:
-            ctx.ok("R37.2", f"stream: {exc} from load -> {sorted(outcomes)}")
+    ctx.guard(_writer_rule, ctx)
+    ctx.guard(_dump_rule, ctx)
+    ctx.guard(_load_rule, ctx)
+    ctx.guard(_stream_rule, ctx)
 
     # ---- R37.3 loaders deliver each flow before reading the next record
     ctx.guard(_lazy_loader, ctx, READFILE, "ReadFile.load_flows", "load_flow", "master.load_flow")
     ctx.guard(_lazy_loader, ctx, VIEW, "View.load_file", "self.add", "View.add")
 
     expect(ctx, "R37.1", 2)
-    expect(ctx, "R37.2", 3)
+    expect(ctx, "R37.2", 2)
     expect(ctx, "R37.3", 2)
 
 
@@ -452,8 +400,8 @@ MUTANTS = [
     Mutant("write-helper-without-flush", IO, "        d = f.get_state()\n        tnetstring.dump(d, self.fo)\n        self.fo.flush()\n",
            "        self._write(f)\n\n    def _write(self, f: flow.Flow) -> None:\n        d = f.get_state()\n        tnetstring.dump(d, self.fo)\n", "R37.1"),
     Mutant("stream-through-plain-writer", SAVE, "self.stream = io.FilteredFlowWriter(f, self.filt)", "self.stream = io.FlowWriter(f)", "R37.1"),
-    Mutant("dump-writes-chunks", TN, "    file_handle.write(dumps(value))\n",
-           "    q: collections.deque = collections.deque()\n    _rdumpq(q, 0, value)\n    for chunk in q:\n        file_handle.write(chunk)\n", "R37.1"),
+    Mutant("dump-writes-partial-on-error", TN, "    file_handle.write(dumps(value))\n",
+           "    q: collections.deque = collections.deque()\n    try:\n        _rdumpq(q, 0, value)\n    finally:\n        file_handle.write(b\"\".join(q))\n", "R37.1"),
     Mutant("tag-read-tolerates-eof", TN, "    data_type = file_handle.read(1)[0]\n", "    data_type = (file_handle.read(1) or b\",\")[0]\n", "R37.2"),
     Mutant("tag-read-before-body", TN, "    data = memoryview(file_handle.read(int(data_length)))\n    data_type = file_handle.read(1)[0]\n",
            "    data_type = file_handle.read(1)[0]\n    data = memoryview(file_handle.read(int(data_length)))\n", "R37.2"),
